@@ -195,6 +195,11 @@ struct BlockM {
   size_t cap = 0;        // size of the block (growth of reserved_size() when it appeared); 0 = unknown (kept by a soft reset)
   intptr_t delta = 0;    // rw - rx, identical for every span of a block
   bool from_reset = false;
+  // Attribution of retained empty blocks (implementation knowledge, only used to tell the known finding
+  // "empty-blocks-retained" from any other excess): a block stays in its initial append-only mode while every
+  // release/shrink so far hit its topmost span; a block emptied in that mode is the known finding.
+  bool append_only = true;
+  bool emptied_append_only = false;   // valid while live == 0
 };
 
 struct RelPtr { uintptr_t rx; void* block; };
@@ -247,6 +252,7 @@ struct Runner {
   std::vector<uintptr_t> order;          // rx of the live spans in an address independent order
   std::map<void*, BlockM> blocks;        // blocks known by token (live >= 0)
   size_t known_empty = 0;                // blocks in `blocks` with live == 0
+  size_t known_empty_append_only = 0;    // ... of which emptied in append-only mode (see BlockM)
   size_t unknown_retained = 0;           // blocks kept by a soft reset that have not been seen again
   size_t unknown_from_reset = 0;
   size_t sum = 0;                        // sum of live span sizes
@@ -355,10 +361,13 @@ struct Runner {
 
   void check_policy(const char* where) {
     size_t limit = immediate ? 0 : pools;
+    size_t regular = empties() - known_empty_append_only;
+    CK(regular <= limit, "empty-block-policy", "%s: %zu empty block(s) retained (%zu blocks, %zu live spans), policy allows %zu (%s, %zu pool(s))",
+       where, regular, Bc, order.size(), limit, immediate ? "immediate release" : "keep one per pool", pools);
     if (empties() > limit) {
       cls("policy_exceeded");
-      fail_unless_known("empty-blocks-retained", "%s: %zu empty block(s) retained (%zu blocks, %zu live spans), policy allows %zu (%s, %zu pool(s))",
-                        where, empties(), Bc, order.size(), limit, immediate ? "immediate release" : "keep one per pool", pools);
+      fail_unless_known("empty-blocks-retained", "%s: %zu empty block(s) retained (%zu blocks, %zu live spans; %zu of them emptied by releasing the topmost span of a block never released from otherwise), policy allows %zu (%s, %zu pool(s))",
+                        where, empties(), Bc, order.size(), known_empty_append_only, limit, immediate ? "immediate release" : "keep one per pool", pools);
     }
   }
 
@@ -532,7 +541,7 @@ struct Runner {
     auto bit = blocks.find(s._block);
     if (bit != blocks.end()) {
       CK(st.block_count() == Bc, "stat-block-count", "alloc(%zu) into a known block changed block_count() %zu -> %zu", req, Bc, st.block_count());
-      if (bit->second.live == 0) { known_empty--; cls("alloc_reused_empty_block"); }
+      if (bit->second.live == 0) { known_empty--; if (bit->second.emptied_append_only) known_empty_append_only--; bit->second.emptied_append_only = false; cls("alloc_reused_empty_block"); }
       else cls("alloc_existing_block");
       bit->second.live++;
       bit->second.bytes += size;
@@ -553,6 +562,19 @@ struct Runner {
         Bc++;
         bm.cap = st.reserved_size() - last.reserved_size();
         cls("alloc_new_block");
+        // released memory is reusable: a new block must not be needed while a gap between two live spans of one block fits
+        // (one pool only: with several pools the pool of a gap is not observable)
+        if (!multi && !live.empty()) {
+          auto a = live.begin();
+          for (auto b2 = std::next(a); b2 != live.end(); ++a, ++b2) {
+            if (a->second.block != b2->second.block) continue;
+            size_t gap = b2->first - (a->first + a->second.span.size());
+            if (gap >= size) {
+              cls("gap_not_reused");
+              failv("free-gap-not-reused", "alloc(%zu) created a new block (%zu -> %zu) although %zu free bytes lie between two live spans of an existing block", req, Bc - 1, Bc, gap);
+            }
+          }
+        }
       }
       blocks[s._block] = bm;
     }
@@ -671,17 +693,19 @@ struct Runner {
   }
 
   // Bookkeeping after a span of `block` disappeared (release / shrink to 0). Returns true if the block still exists.
-  bool after_span_gone(void* block, size_t gone_bytes, const char* where) {
+  bool after_span_gone(void* block, size_t gone_bytes, bool topmost, const char* where) {
     Stats st = A.statistics();
     auto bit = blocks.find(block);
     CK(bit != blocks.end() && bit->second.live > 0 && bit->second.bytes >= gone_bytes, "harness-internal", "block token unknown");
     bit->second.live--;
     bit->second.bytes -= gone_bytes;
+    if (!topmost) bit->second.append_only = false;
     bool exists = true;
     if (bit->second.live > 0) {
       CK(st.block_count() == Bc, "stat-block-count", "%s: block still has live spans but block_count() %zu -> %zu", where, Bc, st.block_count());
     } else if (st.block_count() == Bc) {
       known_empty++;
+      if (bit->second.append_only) { known_empty_append_only++; bit->second.emptied_append_only = true; cls("release_block_emptied_kept_append_only"); }
       cls("release_block_emptied_kept");
     } else {
       CK(st.block_count() + 1 == Bc, "stat-block-count", "%s: block_count() %zu -> %zu after one block became empty", where, Bc, st.block_count());
@@ -693,6 +717,14 @@ struct Runner {
       released.erase(std::remove_if(released.begin(), released.end(), [&](const RelPtr& r) { return r.block == block; }), released.end());
     }
     return exists;
+  }
+
+  // Is the span starting at rx the highest one of its block?
+  bool is_topmost(uintptr_t rx, void* block) {
+    auto it = live.find(rx);
+    if (it == live.end()) return false;
+    ++it;
+    return it == live.end() || it->second.block != block;
   }
 
   void remember_released(uintptr_t p, void* block) {
@@ -719,8 +751,9 @@ struct Runner {
       e = A.release(sp.rx());
       CK(e == Error::kOk, "release-failed", "release(live span) error %u", unsigned(e));
     }
+    bool topmost = is_topmost(rx, block);
     forget_span(sm);
-    bool exists = after_span_gone(block, size, where);
+    bool exists = after_span_gone(block, size, topmost, where);
     if (g_trace) fprintf(stderr, "  %s rx %p size %zu block %p -> blocks %zu\n", where, sp.rx(), size, block, Bc);
     if (exists) {
       if (fill) {
@@ -751,6 +784,7 @@ struct Runner {
     rwmap[uintptr_t(sm.span.rw())] = ns;
     sum -= old_size - ns;
     blocks.at(sm.block).bytes -= old_size - ns;
+    if (ns < old_size && !is_topmost(rx, sm.block)) blocks.at(sm.block).append_only = false;
     if (ns < old_size) sm.shrunk = true;
     check_stats(where);
     query_live_start(sm, where);
@@ -957,7 +991,7 @@ struct Runner {
     size_t blocks_before = Bc;
     A.reset(hard ? ResetPolicy::kHard : ResetPolicy::kSoft);
     live.clear(); rwmap.clear(); order.clear(); blocks.clear(); released.clear();
-    known_empty = 0; sum = 0;
+    known_empty = 0; known_empty_append_only = 0; sum = 0;
     Stats st = A.statistics();
     if (st.allocation_count() != 0) {
       // known-finding path: remember the stale count so that the rest of the history can still be judged
